@@ -51,6 +51,10 @@ class Session:
             return [1]
         if k == 4:
             return [3, sorted(r[0] for r in cur.execute(f"select * from {kname(o[1])}").fetchall())]
+        if k == 7:
+            t, src = unstr(o[2][2]), unstr(o[3][2])      # MERGE cannot take qualified names (C12 finding): the session's current schema holds both
+            rows = cur.execute(f"merge into {t} using {src} on {t}.v = {src}.v when not matched then insert (v) values ({src}.v)").fetchall()
+            return [3, [int(rows[0][0])]]
         d, s, t = (unstr(x) for x in o[1])
         rows = cur.execute(f"select comment from information_schema.tables where table_catalog = '{d}' and table_schema = '{s}' and table_name = '{t}'").fetchall()
         return [4, int(bool(rows)), core.opt(rows[0][0]) if rows else []]
@@ -136,6 +140,9 @@ def _stress(ck, rounds, FakeSnow, bad):  # noqa: N803
         bar = threading.Barrier(n)
         c0 = fs.connect(database="db0", schema="s0")
         c0.cursor().execute("create table shared (sid int, v int)")
+        for i_ in range(n):
+            c0.cursor().execute(f"create table src{i_} (v int)")
+            c0.cursor().execute(f"create table tgt{i_} (v int)")
         got = {}
 
         def w(i):
@@ -153,6 +160,12 @@ def _stress(ck, rounds, FakeSnow, bad):  # noqa: N803
                         if row != [(i, j, *tags)]:
                             errs.append(f"session {i} statement {j}.{rep_} returned {str(row)[:120]}")
                     cur.execute(f"insert into shared values ({i}, {j})")
+                    if j % 3 == 0:
+                        # (v) MERGE is several engine calls around a staging table: each session's must stay its own
+                        cur.execute(f"insert into src{i} values ({100 * i + j})")
+                        st = cur.execute(f"merge into tgt{i} using src{i} on tgt{i}.v = src{i}.v when not matched then insert (v) values (src{i}.v)").fetchall()
+                        if [tuple(map(int, r_)) for r_ in st] != [(1,)]:
+                            errs.append(f"session {i} merge {j} reported {st}, one row was new")
                 got[i] = c.database
             except Exception as e:  # noqa: BLE001
                 errs.append(f"session {i}: {type(e).__name__}: {str(e)[:120]}")
@@ -165,8 +178,12 @@ def _stress(ck, rounds, FakeSnow, bad):  # noqa: N803
         rows = c0.cursor().execute("select sid, v from shared order by 1, 2").fetchall()
         if rows != [(i, j) for i in range(n) for j in range(12)]:
             errs.append(f"shared table holds {len(rows)} rows, expected {n * 12}: inserts lost or duplicated")
+        for i_ in range(n):
+            trows = sorted(r_[0] for r_ in c0.cursor().execute(f"select v from tgt{i_}").fetchall())
+            if trows != [100 * i_ + j_ for j_ in range(0, 12, 3)]:
+                errs.append(f"tgt{i_} holds {trows} after its session's merges, expected {[100 * i_ + j_ for j_ in range(0, 12, 3)]}")
         fs.duck_conn.close()
-        ck.cov["evaluations"] += n * 49
+        ck.cov["evaluations"] += n * 57
         if errs:
             bad.append((r, errs[:4]))
     return bad
@@ -240,6 +257,12 @@ def main():
                                       [[0, S("db1"), S("s1")], [5, T], [5, T], [5, T]]]),
         "torn-create-database": (setup, [[[0, S("db1"), S("s1")], [1, S("DBX")]],
                                          [[0, S("db1"), S("s1")], [2, K("DBX", "main", "TX"), [S("cx")]], [2, K("DBX", "main", "TY"), [S("cy")]]]]),
+        # two sessions of the same schema MERGE into their own tables: the staging table must be private to each (Props_C19.merge_staging_private)
+        "merges-private": (setup + [[2, K("DB1", "S1", "MT1"), []], [2, K("DB1", "S1", "MS1"), []], [2, K("DB1", "S1", "MT2"), []], [2, K("DB1", "S1", "MS2"), []],
+                                    [3, K("DB1", "S1", "MS1"), 1], [3, K("DB1", "S1", "MS1"), 5], [3, K("DB1", "S1", "MT1"), 5],
+                                    [3, K("DB1", "S1", "MS2"), 2], [3, K("DB1", "S1", "MS2"), 6], [3, K("DB1", "S1", "MS2"), 7], [3, K("DB1", "S1", "MT2"), 6]],
+                           [[[0, S("db1"), S("s1")], [7, 1, K("DB1", "S1", "MT1"), K("DB1", "S1", "MS1")], [4, K("DB1", "S1", "MT1")]],
+                            [[0, S("db1"), S("s1")], [7, 2, K("DB1", "S1", "MT2"), K("DB1", "S1", "MS2")], [4, K("DB1", "S1", "MT2")]]]),
         "three-connects": ([], [[[0, S("dba"), S("s1")], [2, K("DBA", "S1", "T1"), []], [3, K("DBA", "S1", "T1"), 1]],
                                 [[0, S("dba"), S("s2")], [2, K("DBA", "S2", "T1"), [S("c2")]]],
                                 [[0, S("dbb"), S("s1")], [2, K("DBB", "S1", "T1"), [S("c3")]], [5, K("DBB", "S1", "T1")]]]),
@@ -310,6 +333,12 @@ def main():
                         report("fails", f"{name}: operation {o} failed with {r[1:]} under schedule {ob['schedule']}", rep)
                 if o[0] == 5 and r[0] == 4 and r[1] == 1 and r[2] == [] and any(p[0] == 2 and p[1] == o[1] and p[2] for s_ in scripts for p in s_):
                     known_or_report("C19-torn-create-table", f"{name}: another session saw table {kname(o[1])} without its comment (CREATE TABLE ... COMMENT observed half-done)", rep)
+        if name == "merges-private":
+            want_t = {"MT1": [1, 5], "MT2": [2, 6, 7]}
+            got_t = {unstr(k[2]): r for k, r in ob["engine"][2] if unstr(k[2]) in want_t}
+            counts = [res[1] for res in ob["results"][1:]]
+            if got_t != want_t or counts != [[3, [1]], [3, [2]]]:
+                report("merge-cross", f"{name}: two sessions merging into their own tables: targets {got_t} (serial: {want_t}), status rows {counts} (serial: 1 and 2 rows inserted)", rep)
         if name == "inserts-shared":
             rows = [r for k, r in ob["engine"][2] if unstr(k[2]) == "SHARED"]
             if rows != [[10, 11, 20, 21]]:
@@ -330,12 +359,12 @@ def main():
     if bad:
         r, errs = bad[0]
         report("stress", f"free-running threads, round {r}: {errs}; {len(bad)} rounds failed", {"rounds_failed": len(bad), "errors": errs,
-               "scenario": "4 threads: connect (same new database / existing database) then 12 x (select own literals, insert into shared table)"})
+               "scenario": "4 threads: connect (same new database / existing database) then 12 x (select own literals, insert into shared table, every third round insert + MERGE into own table)"})
     # known finding probes under free-running threads are not run: torn statements are shown deterministically above
     ck.cov["distinct_nontrivial"] = len(distinct)
     ck.cov["exhaustive_space"] = "2-session scenarios: every schedule with <= 2 preemptions at engine-call granularity " + ("(all split points 0..15)" if thorough else "(split points 0,4,8,12)")
     ck.cov["samples"] += [{"scenario": labels[5], "model_schedule": impl[5]["schedule"]}]
-    return ck.finish(rule="real fakesnow sessions in real threads under a deterministic scheduler (switch points = engine calls + the connect lock): 5 scenarios (connects auto-creating the same database, "
+    return ck.finish(rule="real fakesnow sessions in real threads under a deterministic scheduler (switch points = engine calls + the connect lock): 6 scenarios (connects auto-creating the same database, two MERGEs of one schema into their own tables, "
                           "inserts into a shared table, CREATE TABLE ... COMMENT vs an observer, CREATE DATABASE vs a user of the new database, three connects) x schedules; the model follows the "
                           "observed interleaving and must issue the same engine-call classes, the same per-operation results and the same final engine state; independent oracle: nothing fails, "
                           "no insert lost, observers see only serial states; plus free-running stress; non-trivial = distinct (scenario, interleaving) pairs")
